@@ -43,6 +43,7 @@ def write_replay(pid, name, payload):
 
 
 def main():
+    sys.set_int_max_str_digits(0)  # exact rationals of long schedules have thousands of digits
     ap = argparse.ArgumentParser()
     ap.add_argument("pid")
     ap.add_argument("--tier", default=os.environ.get("VERIF_TIER", "quick"), choices=["quick", "thorough"])
@@ -229,8 +230,9 @@ def run(pid, tier, seed, workdir, replay, skip_lean, t0):
         cov["programs"] = ctx.extra.get("programs", ctx.evaluations)
         cov["disagreements_checked"] = ctx.extra.get("disagreements_checked", ctx.impl_traces)
     cov.update({k: v for k, v in ctx.extra.items() if k not in cov})
-    write_evidence(pid, tier, seed, level, cov, time.time() - t0, violations,
-                   list(getattr(mod, "ASSUMPTIONS", [])))
+    if not skip_lean:  # a development run without the proof audit must never leave an evidence record
+        write_evidence(pid, tier, seed, level, cov, time.time() - t0, violations,
+                       list(getattr(mod, "ASSUMPTIONS", [])))
     for l in lines:
         print(l)
     print(f"{pid} tier={tier} seed={seed}: theorems {audit['discharged']}/{audit['obligations']}, "
